@@ -19,9 +19,10 @@ from liesel.goose.epoch import EpochConfig, EpochType
 
 PROPERTY = "C19"
 RULE = ("cases = engine specs with per-kernel error-code tables (patterns none / warm-up only / posterior only / one chain only / dense; "
-        "codes 1, 2, 7 from the kernel's error book), 1-4 chains, 1-3 kernels, warm-up and posterior epochs with posterior thinning; "
+        "codes 1, 2, 7 and optionally 256, 300 from the kernel's error book; transition infos optionally minimised), 1-4 chains, 1-3 kernels, warm-up and posterior epochs with posterior thinning; "
         "non-trivial = >= 2 distinct codes, errors in both phases, in a strict subset of chains for some (kernel, code), and >= 2 kernels of "
-        "which one is error-free; distinct = SHA-1 of the spec")
+        "which one is error-free; value_types: runs whose state holds int32 > 2^24, uint32 > 2^31, booleans and float32 fractions, non-trivial = "
+        "integer beyond 2^24; distinct = SHA-1 of the spec")
 ASSUMPTIONS = [
     "warmup_size_per_chain is compared only when every warm-up epoch has thinning 1 (stored == run there)",
     "relative error frequencies are not part of the property (counts are)",
